@@ -1,4 +1,5 @@
 import MesonModel.DepPolicy.Lemmas
+import MesonModel.DepPolicy.Repeat
 import MesonModel.DepPolicy.WrapLemmas
 /-
 C10 — Dependencies resolve by the documented fallback policy, from verified sources.
@@ -127,29 +128,69 @@ theorem override_wins (w : World) (r : Request) (h0 : Holder) (n : Str) (ns : Li
   rw [hc]
   simp [loop, runCand, getCachedDep, ho, hfound, hv]
 
-/-- `override_wins` is what makes repeated lookups agree: after a successful lookup every name has an
-override, and the first name's override is the answer of the next lookup with the same arguments. -/
-theorem repeat_lookup_stable_partial (w : World) (r : Request) (h0 : Holder) (n : Str) (ns : List Str) (d : Dep) (ex : Bool)
-    (hm : mkHolder r = .ok h0) (hn : h0.names = n :: ns)
-    (ho : alookup n w.overrides = some (d, ex)) (hfound : d.found = true)
-    (hv : checkVersion sat r.wanted d.version = true) :
-    (lookup sat (lookup sat w r).world r).out = (lookup sat w r).out := by
-  have h1 := (override_wins sat w r h0 n ns d ex hm hn ho hfound hv).1
-  have hw : alookup n (lookup sat w r).world.overrides = some (d, ex) := by
-    unfold lookup
-    rw [hm]
-    simp only []
-    have hnames : (prepare w r h0).names = n :: ns := by rw [prepare_names, hn]
-    have hc : ∃ rest, getCandidates (prepare w r h0) = Cand.cache n :: rest := by
-      unfold getCandidates
-      rw [hnames]
-      exact ⟨_, rfl⟩
-    rcases hc with ⟨rest, hc⟩
-    rw [hc]
-    simp [loop, runCand, getCachedDep, ho, hfound, hv]
-    exact alookup_addImplicit_of_some n (d, ex) d _ _ ho
-  rw [h1]
-  exact (override_wins sat _ r h0 n ns d ex hm hn hw hfound hv).1
+/-- **`lookup` is the documented decision table.** For every meaning `sat` of version constraints, every
+world (overrides, cache, system, wrap `[provide]` tables, subprojects and what configuring them does,
+`wrap_mode`, `force_fallback_for`) and every request (any number of names, constraint, `required`,
+`allow_fallback`, `fallback`) whose names are lower case, the model of
+`DependencyFallbacksHolder.lookup` returns the outcome `policy` prescribes (errors compared as "an
+error") and leaves exactly the world `policy` prescribes.  `policy` (`DepPolicy/Policy.lean`) is written
+from the documents with the readings R1–R3, independently of `lookup`. -/
+theorem lookup_eq_policy (w : World) (r : Request) (hwf : WellFormed r) :
+    (lookup sat w r).out.simplify = (policy sat w r).1 ∧ (lookup sat w r).world = (policy sat w r).2 := by
+  have h := lookup_eq_policy_core sat w r hwf
+  exact ⟨congrArg Prod.fst h, congrArg Prod.snd h⟩
+
+/-- **Repeated lookups with the same arguments return the same dependency**: if a lookup (at least one
+name, lower-case names) returns `found d`, the same lookup in the world it leaves returns `found d`. -/
+theorem repeat_lookup_stable (w : World) (r : Request) (d : Dep) (hwf : WellFormed r) (hne : r.names ≠ [])
+    (h : (lookup sat w r).out = .found d) :
+    (lookup sat (lookup sat w r).world r).out = .found d := by
+  have h1 := lookup_eq_policy sat w r hwf
+  have hp : (policy sat w r).1 = .found d := by rw [← h1.1, h]; rfl
+  have h2 := lookup_eq_policy sat (lookup sat w r).world r hwf
+  rw [h1.2] at h2 ⊢
+  have := policy_repeat sat w r d hne hp
+  rw [this] at h2
+  cases ho : (lookup sat (policy sat w r).2 r).out with
+  | found d' => rw [ho] at h2; simp [Outcome.simplify] at h2; rw [h2.1]
+  | notFound => rw [ho] at h2; simp [Outcome.simplify] at h2
+  | error k => rw [ho] at h2; simp [Outcome.simplify] at h2
+
+/-- a sequence of lookups is the sequence the policy prescribes -/
+theorem lookupSeq_eq_policySeq : ∀ (rs : List Request) (w : World), (∀ r ∈ rs, WellFormed r) →
+    (lookupSeq sat w rs).map (fun x => (x.out.simplify, x.world)) = policySeq sat w rs := by
+  intro rs
+  induction rs with
+  | nil => intro w _; rfl
+  | cons r rest ih =>
+    intro w hwf
+    have h1 := lookup_eq_policy sat w r (hwf r (by simp))
+    have ih' := ih (lookup sat w r).world (fun q hq => hwf q (by simp [hq]))
+    have hp : ((lookup sat w r).out.simplify, (lookup sat w r).world) = policy sat w r := Prod.ext h1.1 h1.2
+    simp only [lookupSeq, policySeq]
+    rw [← hp]
+    have e1 : ∀ d, (Outcome.found d).simplify = POutcome.found d := fun _ => rfl
+    have e2 : Outcome.notFound.simplify = POutcome.notFound := rfl
+    have e3 : ∀ k, (Outcome.error k).simplify = POutcome.error := fun _ => rfl
+    cases ho : (lookup sat w r).out <;> simp [ho, e1, e2, e3, ih']
+
+/-! non-vacuity: a required `dependency('foo')` with `foo.wrap` providing it and nothing on the system
+configures the subproject and returns its override; the second lookup returns the same object -/
+def dFoo : Dep := { ident := "d".toList, found := true, version := "2.0".toList }
+def w0 : World :=
+  { wrapMode := .default, fff := [], overrides := [], cache := [], system := [],
+    provides := [("foo".toList, "foosub".toList, none)],
+    subs := [{ name := "foosub".toList, state := .no, configureOk := true,
+               overrides := [("foo".toList, dFoo)], vars := [] }] }
+def r0 : Request := { names := ["foo".toList], wanted := [], required := true, allowFallback := none, fallback := none }
+
+example : WellFormed r0 := by
+  intro n hn
+  simp [r0] at hn
+  subst hn
+  decide
+example : (lookup (fun _ _ => true) w0 r0).out = .found dFoo := by decide
+example : (policy (fun _ _ => true) w0 r0).1 = .found dFoo := by decide
 
 end dep
 
